@@ -151,16 +151,20 @@ def locK : Option (List String) → LocK
 
 abbrev Key := Nat × (List Nat × (TagK × (TagK × (TagK × LocK))))
 
+/-- the `_pre` entry of the key -/
+def preK (v : Version) : TagK :=
+  if v.pre.isNone && v.post.isNone && v.dev.isSome then negInfTagK
+  else match v.pre with
+    | none => infTagK
+    | some t => tagK t
+
+def postK (v : Version) : TagK := match v.post with | none => negInfTagK | some t => tagK t
+
+def devK (v : Version) : TagK := match v.dev with | none => infTagK | some t => tagK t
+
 /-- `PEP440Version._make_compare_key` -/
 def key (v : Version) : Key :=
-  let pre : TagK :=
-    if v.pre.isNone && v.post.isNone && v.dev.isSome then negInfTagK
-    else match v.pre with
-      | none => infTagK
-      | some t => tagK t
-  let post : TagK := match v.post with | none => negInfTagK | some t => tagK t
-  let dev : TagK := match v.dev with | none => infTagK | some t => tagK t
-  (v.epoch, stripZeros v.release, pre, post, dev, locK v.loc)
+  (v.epoch, stripZeros v.release, preK v, postK v, devK v, locK v.loc)
 
 attribute [local instance] lexOrd in
 /-- dataclass `order=True`/`eq=True` on `_compare_key` -/
@@ -287,6 +291,23 @@ def nextBreaking (v : Version) : Version :=
   else if (relMinor v.release).getD 0 > 0 || (relPatch v.release).isNone then v.stable.nextMinor
   else v.stable.nextPatch
 
+/-! ### well-formedness (what the parser and the bump functions produce) -/
+
+def _root_.Poetry.Tag.isPre (t : Tag) : Bool := t.phase == .a || t.phase == .b || t.phase == .rc
+
+def optAll {α : Type} (p : α → Bool) : Option α → Bool
+  | none => true
+  | some a => p a
+
+/-- release non-empty; tags carry the phase of their slot; a local label has at least one segment
+and no empty segment. -/
+def wf (v : Version) : Bool :=
+  !v.release.isEmpty &&
+  optAll Tag.isPre v.pre &&
+  optAll (fun t => t.phase == .post) v.post &&
+  optAll (fun t => t.phase == .dev) v.dev &&
+  optAll (fun ps => !ps.isEmpty && ps.all (fun s => !s.isEmpty)) v.loc
+
 /-! ### parser: a hand recogniser of `^\s*VERSION_PATTERN\s*$` (re.VERBOSE | re.IGNORECASE) -/
 
 def isSep (c : Char) : Bool := c == '-' || c == '_' || c == '.'
@@ -356,13 +377,47 @@ an int, i.e. printed without leading zeros (D18 fix). -/
 def normLocalSeg (s : String) : String :=
   if isNumericStr s then natToString (digitsToNat s.toList) else s
 
-/-- Parse the body of VERSION_PATTERN from lower-cased characters; returns the fields and the
-unconsumed rest.  `none` = the pattern does not match at this position. -/
-def parseBody (s : List Char) :
-    Option (Nat × List Nat × Option Tag × Option Tag × Option Tag × Option (List String) × List Char) :=
-  -- v?
-  let s := match s with | 'v' :: cs => cs | _ => s
-  -- (?:(?P<epoch>[0-9]+)!)?
+def preWords : List String := ["alpha", "a", "beta", "b", "preview", "pre", "c", "rc"]
+def postWords : List String := ["post", "rev", "r"]
+def devWords : List String := ["dev"]
+
+/-- optional labelled group; the tag is kept only if the phase table knows the word -/
+def parseLabelled (ws : List String) (s : List Char) : Option Tag × List Char :=
+  match labelled? ws s with
+  | some (w, n, r) =>
+    match Phase.ofSpelling w with
+    | some p => (some ⟨p, n⟩, r)
+    | none => (none, s)
+  | none => (none, s)
+
+def parsePre (s : List Char) : Option Tag × List Char := parseLabelled preWords s
+
+/-- `(?:-(?P<post_n1>[0-9]+))` -/
+def parsePostAlt1 (s : List Char) : Option (Nat × List Char) :=
+  match s with
+  | '-' :: cs =>
+    let (ds, r) := takeDigits cs
+    if ds.isEmpty then none else some (digitsToNat ds, r)
+  | _ => none
+
+/-- `(?:-(?P<post_n1>[0-9]+)) | (?:[-_.]?(post|rev|r)[-_.]?[0-9]*)` -/
+def parsePost (s : List Char) : Option Tag × List Char :=
+  match parsePostAlt1 s with
+  | some (n, r) => (some ⟨.post, n⟩, r)
+  | none => parseLabelled postWords s
+
+def parseDev (s : List Char) : Option Tag × List Char := parseLabelled devWords s
+
+def parseLocal (s : List Char) : Option (List String) × List Char :=
+  match s with
+  | '+' :: cs =>
+    match localSegs (cs.length + 1) cs with
+    | some (segs, r) => (some (segs.map normLocalSeg), r)
+    | none => (none, s)
+  | _ => (none, s)
+
+/-- `(?:(?P<epoch>[0-9]+)!)?(?P<release>[0-9]+(?:\.[0-9]+)*)` after the optional `v` -/
+def parseEpochRelease (s : List Char) : Option (Nat × List Nat × List Char) :=
   let (d0, r0) := takeDigits s
   if d0.isEmpty then none else
   let (epoch, d1, r1) :=
@@ -372,60 +427,31 @@ def parseBody (s : List Char) :
       if d.isEmpty then (0, d0, r0) else (digitsToNat d0, d, r)
     | _ => (0, d0, r0)
   let (more, r2) := moreRelease r1.length r1
-  let release := digitsToNat d1 :: more
-  -- pre
-  let (pre, r3) : Option Tag × List Char :=
-    match labelled? ["alpha", "a", "beta", "b", "preview", "pre", "c", "rc"] r2 with
-    | some (w, n, r) =>
-      match Phase.ofSpelling w with
-      | some p => (some ⟨p, n⟩, r)
-      | none => (none, r2)
-    | none => (none, r2)
-  -- post
-  let (post, r4) : Option Tag × List Char :=
-    let alt1 : Option (Nat × List Char) :=
-      match r3 with
-      | '-' :: cs =>
-        let (ds, r) := takeDigits cs
-        if ds.isEmpty then none else some (digitsToNat ds, r)
-      | _ => none
-    match alt1 with
-    | some (n, r) => (some ⟨.post, n⟩, r)
-    | none =>
-      match labelled? ["post", "rev", "r"] r3 with
-      | some (w, n, r) =>
-        match Phase.ofSpelling w with
-        | some p => (some ⟨p, n⟩, r)
-        | none => (none, r3)
-      | none => (none, r3)
-  -- dev
-  let (dev, r5) : Option Tag × List Char :=
-    match labelled? ["dev"] r4 with
-    | some (w, n, r) =>
-      match Phase.ofSpelling w with
-      | some p => (some ⟨p, n⟩, r)
-      | none => (none, r4)
-    | none => (none, r4)
-  -- local
-  let (loc, r6) : Option (List String) × List Char :=
-    match r5 with
-    | '+' :: cs =>
-      match localSegs (cs.length + 1) cs with
-      | some (segs, r) => (some (segs.map normLocalSeg), r)
-      | none => (none, r5)
-    | _ => (none, r5)
-  some (epoch, release, pre, post, dev, loc, r6)
+  some (epoch, digitsToNat d1 :: more, r2)
+
+/-- `v?` -/
+def stripV (s : List Char) : List Char := match s with | 'v' :: cs => cs | _ => s
+
+/-- Parse the body of VERSION_PATTERN from lower-cased characters; returns the version (with the
+given text) and the unconsumed rest.  `none` = the pattern does not match at this position. -/
+def parseBody (text : String) (s : List Char) : Option (Version × List Char) :=
+  match parseEpochRelease (stripV s) with
+  | none => none
+  | some (epoch, release, r2) =>
+    let (pre, r3) := parsePre r2
+    let (post, r4) := parsePost r3
+    let (dev, r5) := parseDev r4
+    let (loc, r6) := parseLocal r5
+    some ({ epoch, release, pre, post, dev, loc, text }, r6)
 
 /-- `PEP440Parser.parse` : `^\s*VERSION_PATTERN\s*$`, IGNORECASE; keeps the raw text. -/
 def parse (value : String) : PyM Version :=
   let cs := (value.toList.map lowerChar)
   let s := dropSpaces cs
-  match parseBody s with
+  match parseBody value s with
   | none => .error .value
-  | some (epoch, release, pre, post, dev, loc, rest) =>
-    if (dropSpaces rest).isEmpty && !value.isEmpty then
-      .ok { epoch, release, pre, post, dev, loc, text := value }
-    else .error .value
+  | some (v, rest) =>
+    if (dropSpaces rest).isEmpty && !value.isEmpty then .ok v else .error .value
 
 /-! ### dumps used by the line protocol -/
 
